@@ -8,12 +8,22 @@
 //! is implemented for types that have a Roto equivalent. This is necessary
 //! for mapping a complex Rust type to Roto types.
 
+#[cfg(not(feature = "verif"))]
 use std::{
     any::{TypeId, type_name},
     collections::HashMap,
     net::IpAddr,
     sync::{LazyLock, Mutex},
 };
+#[cfg(feature = "verif")]
+use std::{
+    any::{TypeId, type_name},
+    collections::HashMap,
+    net::IpAddr,
+    sync::LazyLock,
+};
+#[cfg(feature = "verif")]
+use crate::verif::sync::Mutex;
 
 use inetnum::{addr::Prefix, asn::Asn};
 use sealed::sealed;
